@@ -45,7 +45,7 @@ def c02_streams(run, tier, seed):
         small = rng.choice([0, 1, 0x10, 0xFF])
         big = rng.choice([0x100, 0x1234, 0xFFFF, 0x12345])
         a, b = rng.choice([(small, big), (big, small)])
-        org = rng.choice(["", "*=0x008000\n", "*=0x01fff0\n", "*=0xc08000\n"])
+        org = rng.choice(["", "*=0x008000\n", "*=0x01fff0\n", "*=0xc08000\n", "*=0x008000\n@=0x7e2000\n", "*=0x028000\n.db 1\n@=0x7f0100\n"])
         rom = "high_rom" if org.startswith("*=0xc0") else "low_rom"
         mn = rng.choice(["lda", "sta", "adc", "cmp", "ora"])
         pat = i % 6
@@ -294,6 +294,8 @@ def run_prop(prop, ctx):
     try:
         streams = [general_stream(run, prop, tier, seed, 150, 3000)]
         streams += SPECIFIC[prop](run, tier, seed)
+        if prop in ("C02", "C03"):
+            streams.append(pipeline.wild_stream(run, prop, tier, seed, oracles=(ORACLES[prop],)))
         if prop == "C02":
             # the position-heavy programs also exercise "actually placed": label address <-> file offset
             for st in c03_streams(run, tier, seed):
